@@ -328,8 +328,10 @@ private:
         // by assignments, we keep our forwarding functor unchanged as our containing SM did not change
     template <class RHS>
         exit_pt(RHS&):m_forward(){}
-        exit_pt<ExitPoint>& operator= (const exit_pt<ExitPoint>& )
+        exit_pt<ExitPoint>& operator= (const exit_pt<ExitPoint>& rhs)
         {
+            // the pseudo state's own data is copied, only the forwarding functor stays
+            ExitPoint::operator=(rhs);
             return *this;
         }
     private:
